@@ -1120,6 +1120,8 @@ fn gen_project(rng: &mut Rng, k: usize) -> Project {
     0 => {
       // run -p/-r on js/ts files
       let pats = [("foo($A)", "bar($A)"), ("foo($$$A)", "baz($$$A)"), ("$A", "($A)"), ("foo($A)", "$A"), ("debugger", ""), ("let $A = $B", "const $A = $B"),
+        // rewrites without any variable on nodes that end in a token the pattern leaves out (`;`)
+        ("let $A = $B", "let z = 0"), ("var $A = $B", "done()"), ("debugger", "/* removed */"),
         // patterns that match a node whose FIRST token they skip (`async`, `static`): the replaced
         // range still starts at the node and must end at the end of a node below it
         ("function $F() { $$$B }", "function $F() { return 1 }"), ("class $C { $M() { $$$B } }", "class $C {}")];
@@ -1534,6 +1536,22 @@ fn ends_at_a_node_end(content: &str, start: usize, node_end: usize, end: usize) 
   found
 }
 
+/// `sg run -p P -r T`: the replaced range is the prefix of the node that P matched (the library's
+/// `get_match_len` of the pattern on that node; a node's trailing tokens the pattern does not mention,
+/// e.g. `;`, stay), whatever the rewrite text looks like. `true` = the announced end differs.
+fn run_range_differs_from_match_len(cmd: &[String], content: &str, node: (usize, usize), end: usize) -> bool {
+  let Some(i) = cmd.iter().position(|a| a == "-p") else { return false };
+  let Some(ptext) = cmd.get(i + 1) else { return false };
+  let Ok(pat) = Pattern::try_new(ptext, SupportLang::JavaScript) else { return false };
+  let g = SupportLang::JavaScript.ast_grep(content);
+  let Some(n) = g.root().dfs().find(|n| n.range().start == node.0 && n.range().end == node.1 && pat.match_node(n.clone()).is_some()) else { return false };
+  let want = match pat.get_match_len(n) {
+    Some(l) => node.0 + l,
+    None => node.1,
+  };
+  end != want
+}
+
 pub fn c06_cli(ctx: &Ctx, rng: &mut Rng, o: &mut Out) {
   let n = if ctx.thorough { 2_000 } else { 150 };
   let mut cases = 0usize;
@@ -1576,6 +1594,8 @@ pub fn c06_cli(ctx: &Ctx, rng: &mut Rng, o: &mut Out) {
         // C03 `match_len_no_token_split`: the matched prefix ends where some node of the matched
         // subtree ends — never inside a token
         Some("replaced range ends inside a token of the match")
+      } else if p.class.starts_with("run ") && file_is_js(&a.file) && run_range_differs_from_match_len(&p.cmd, content, a.node, r.end) {
+        Some("replaced range of `run --rewrite` is not the part of the node the pattern matched")
       } else if a.rule == "r-dbg" {
         // reference from the documentation: the range starts at the nearest preceding sibling that
         // is a comment (none: at the node) and ends at the node's end
